@@ -41,3 +41,10 @@ UNITS.append(dict(
                dict(name='bus_apparmor_allows_eavesdropping', file='bus/apparmor.c', status='assumed', note='arbitrary verdict, AccessDenied on refusal'),
                dict(name='dbus_message_get_args / bus_driver_send_ack_reply / dbus_malloc / _dbus_strdup', file='dbus/dbus-message.c, bus/driver.c, dbus/dbus-memory.c', status='stub', note='deliver <= 2 rule strings and the flags; arbitrary failure')],
     assumptions=['bus_driver_check_caller_is_privileged is run by bus_driver_handle_message for table entries flagged METHOD_FLAG_PRIVILEGED (the flag itself is checked: bm.post12)']))
+
+UNITS.append(dict(name='C18m.send_or_activate', props=['C18', 'C19'], kind='P', route='stub', bus=True, entry='harness',
+    tus=[dict(file='bus/driver.c', include_as='VERIF_TU')], harness='harness/c18_sendoract.c', timeout=300, expect_s=5, must_have=['soa.post1', 'soa.post2'],
+    functions=[dict(name='bus_driver_send_or_activate', file='bus/driver.c', status='enforced', contract='success => the bus-originated message is captured for monitors exactly once and sent or held exactly once'),
+               dict(name='bus_transaction_send_from_driver', file='bus/connection.c', status='stub', note='TRUE => captured once and staged (contract enforced by C03.from_driver / C18.capture)'),
+               dict(name='bus_transaction_capture, bus_activation_activate_service, bus_registry_lookup', file='bus/*.c', status='stub', note='counted; may fail (OOM)')],
+    assumptions=[]))
